@@ -122,10 +122,69 @@ Definition call_eqb (a b : string * string * string) : bool :=
   let '(c1, u1, p1) := a in let '(c2, u2, p2) := b in
   String.eqb c1 c2 && String.eqb u1 u2 && String.eqb p1 p2.
 
+(* ---- the follower's pooled connections to the leader (cluster/client.go dial / retry /
+        handleConnError over tcp/pool) ----
+
+   A connection is modelled by the responses the leader still owes on it, oldest first: the client
+   writes a command and then reads the NEXT response that arrives on that connection.  If nothing
+   is owed, that is the answer to its own command, unless the leader takes longer than the
+   request's deadline ([ps_slow]) — then the read times out and the answer stays owed.
+
+   The client rule (handleConnError + pool.Conn.Close): a connection on which an exchange failed is
+   marked unusable and closed, never handed back to the pool.  [keep] = false is that rule; the
+   parameter exists so that the theorem can say what the rule buys. *)
+Record pstep := {
+  ps_id : N;          (* identifies the request and, in the results and index, its answer *)
+  ps_slow : bool;     (* the leader answers after the request's deadline *)
+  ps_retry : bool     (* Execute/Query/Request/Load go through Client.retry: one more attempt on a NEW connection *)
+}.
+Definition pconn := list N.
+
+(* one exchange on connection [c]: what the client reads (None = deadline expired), the connection
+   afterwards (None = closed) *)
+Definition attempt (keep : bool) (c : pconn) (s : pstep) : option N * option pconn :=
+  match c with
+  | x :: r => (Some x, Some (r ++ [ps_id s])%list)              (* an older answer arrives first *)
+  | [] => if ps_slow s then (None, if keep then Some [ps_id s] else None)
+          else (Some (ps_id s), Some [])
+  end.
+
+Record pstate := {
+  pl_pool : list pconn;     (* idle connections, oldest first (channel pool) *)
+  pl_reused : bool          (* a connection with an answer still owed was taken out of the pool *)
+}.
+
+Definition put (pool : list pconn) (c : option pconn) : list pconn :=
+  match c with Some c => (pool ++ [c])%list | None => pool end.
+
+(* Client.retry / the single-attempt paths, for one forwarded request *)
+Definition forward (keep : bool) (st : pstate) (s : pstep) : option N * pstate :=
+  let '(c, rest) := match pl_pool st with c :: rest => (c, rest) | [] => ([], []) end in
+  let reused := pl_reused st || match c with [] => false | _ => true end in
+  let '(r, c') := attempt keep c s in
+  match r with
+  | Some x => (Some x, {| pl_pool := put rest c'; pl_reused := reused |})
+  | None =>
+    if ps_retry s
+    then let '(r2, c2) := attempt keep [] s in           (* forced new connection *)
+         (r2, {| pl_pool := put (put rest c') c2; pl_reused := reused |})
+    else (None, {| pl_pool := put rest c'; pl_reused := reused |})
+  end.
+
+Fixpoint forward_all (keep : bool) (st : pstate) (ss : list pstep) : list (option N) * pstate :=
+  match ss with
+  | [] => ([], st)
+  | s :: r => let '(x, st') := forward keep st s in
+              let '(xs, st'') := forward_all keep st' r in (x :: xs, st'')
+  end.
+
+Definition pstate0 := {| pl_pool := []; pl_reused := false |}.
+Definition owed (st : pstate) : nat := List.length (List.concat (pl_pool st)).
+
 (* One HTTP request to a node whose store behaves as [f_local]/[f_addr] say, with the leader's
    credentials file, and what was observed: the response, the follower's store calls, and the calls
    that reached the leader's database/manager with the credentials its credential store was asked about. *)
-Record case := {
+Record one_case := {
   c_kind : kind;
   c_local : lres; c_addr : ares;
   c_leader_file : option (list cred);
@@ -137,11 +196,11 @@ Record case := {
   c_remote : list (string * string * string)
 }.
 
-Definition case_env (c : case) : env :=
+Definition case_env (c : one_case) : env :=
   {| f_local := c_local c; f_addr := c_addr c; l_store := option_map load (c_leader_file c);
      l_db_ok := c_db_ok c; l_api_known := c_api_known c |}.
 
-Definition check_case (c : case) : bool :=
+Definition check_one (c : one_case) : bool :=
   let '(o, t) := serve (c_kind c) (case_env c) (c_redirect c) (c_user c) (c_pass c) in
   N.eqb (h_status o) (h_status (c_obs c))
   && served_eqb (h_results o) (h_results (c_obs c))
@@ -149,3 +208,40 @@ Definition check_case (c : case) : bool :=
   && served_eqb (h_served_by o) (h_served_by (c_obs c))
   && Nat.eqb (t_local t) (c_local_calls c) && Nat.eqb (t_addr t) (c_addr_calls c)
   && list_eqb call_eqb (t_remote t) (c_remote c).
+
+(* Several requests forwarded by ONE follower (one client, one pool), some of them answered by the
+   leader only after the request's deadline.  Observed per request: the id found in the results and
+   index the client received (None = an error response); for the whole sequence: whether a
+   connection was used again after a read on it had timed out, and how many idle pooled
+   connections held unread bytes once the leader had answered everything. *)
+Record seq_case := {
+  sq_steps : list pstep;
+  sq_got : list (option N);
+  sq_reused : bool;
+  sq_unread : nat
+}.
+
+Definition opt_eqb (a b : option N) : bool :=
+  match a, b with Some x, Some y => N.eqb x y | None, None => true | _, _ => false end.
+
+(* A slow request is allowed to succeed (with its own answer) when the host stalls long enough for
+   the answer to be there before the read starts; nothing else is tolerated. *)
+Definition got_ok (s : pstep) (m o : option N) : bool :=
+  opt_eqb m o || (ps_slow s && opt_eqb o (Some (ps_id s))).
+
+Fixpoint all3 (ss : list pstep) (ms os : list (option N)) : bool :=
+  match ss, ms, os with
+  | [], [], [] => true
+  | s :: sr, m :: mr, o :: orr => got_ok s m o && all3 sr mr orr
+  | _, _, _ => false
+  end.
+
+Definition check_seq (c : seq_case) : bool :=
+  let '(ms, st) := forward_all false pstate0 (sq_steps c) in
+  all3 (sq_steps c) ms (sq_got c)
+  && Bool.eqb (pl_reused st) (sq_reused c)
+  && Nat.eqb (owed st) (sq_unread c).
+
+Inductive case := COne (c : one_case) | CSeq (c : seq_case).
+Definition check_case (c : case) : bool :=
+  match c with COne c => check_one c | CSeq c => check_seq c end.
